@@ -61,7 +61,8 @@ func FindDirectory(r io.ReaderAt, size int64) (int64, error) {
 	}
 	if end.TotalCDCount == uint16Max || end.CDSize == uint32Max || end.CDOffset == uint32Max {
 		if loc64.Signature != directory64LocSignature {
-			return 0, errors.New("expected ZIP64 locator")
+			// no ZIP64 records: the values are real, e.g. exactly 65535 members
+			return checkDirLoc(int64(end.CDOffset), size)
 		}
 		// ZIP64
 		var end64b [directory64EndLen]byte
